@@ -42,7 +42,7 @@ func init() {
 					cells = append(cells, "deny/"+rule+"/"+pos)
 				}
 			}
-			cells = append(cells, "deny/first-aud/first", "deny/root/last", "dev/foreign-root", "dev/swap", "dev/dup", "dev/repeat", "dev/repeat-at-end", "dev/truncate", "dev/non-delegation", "sloppy-loader/nil-nil", "sloppy-loader/panics")
+			cells = append(cells, "deny/first-aud/first", "deny/root/last", "dev/foreign-root", "dev/swap", "dev/dup", "dev/repeat", "dev/repeat-at-end", "dev/truncate", "dev/non-delegation", "sloppy-loader/nil-nil", "sloppy-loader/panics", "sloppy-loader/token-and-error")
 			for n := 1; n <= 6; n++ {
 				cells = append(cells, fmt.Sprintf("allow/n=%d", n))
 			}
@@ -374,16 +374,16 @@ func runC01(w *mon.W) {
 		// panics. Whatever the check does then (an error, or the panic passing through), it may
 		// not report the invocation as allowed
 		if !want && (rule == "unloadable") && it%2 == 0 {
-			for _, mode := range []string{"nil-nil", "panics"} {
+			for _, mode := range []string{"nil-nil", "panics", "token-and-error"} {
 				if inv, err := s.MakeInvocation(b, s.Audience, r); err == nil {
 					var e error
-					pi := mon.Guard(func() { e = allowed(inv, &sloppyLoader{inner: b.Loader, mode: mode}, hook) })
+					pi := mon.Guard(func() { e = allowed(inv, &sloppyLoader{inner: b.Loader, mode: mode, plain: b.Plain}, hook) })
 					w.Eval(1)
 					w.Cover("sloppy-loader/" + mode)
 					if pi == nil && e == nil {
 						d := s.Describe()
 						d["loader"] = "answers an unknown / failing CID with " + mode
-						w.Violate("unsound/sloppy-loader/"+mode, fmt.Sprintf("ExecutionAllowed = nil although a referenced delegation cannot be loaded (the loader %s for it)", map[string]string{"nil-nil": "returns (nil, nil)", "panics": "panics"}[mode]), d)
+						w.Violate("unsound/sloppy-loader/"+mode, fmt.Sprintf("ExecutionAllowed = nil although a referenced delegation cannot be loaded (the loader %s for it)", map[string]string{"nil-nil": "returns (nil, nil)", "panics": "panics", "token-and-error": "returns the token it still has TOGETHER WITH an error that is not ErrDelegationNotFound"}[mode]), d)
 					}
 				}
 			}
@@ -439,13 +439,26 @@ func runC01(w *mon.W) {
 type sloppyLoader struct {
 	inner delegation.Loader
 	mode  string
+	plain delegation.Loader // the store without injected faults (mode token-and-error)
 }
 
 func (l *sloppyLoader) GetDelegation(c cid.Cid) (*delegation.Token, error) {
 	t, err := l.inner.GetDelegation(c)
 	if err != nil || t == nil {
-		if l.mode == "panics" {
+		switch l.mode {
+		case "panics":
 			panic("loader: index out of range")
+		case "token-and-error":
+			// a store that reports a failure (withdrawn, unreachable, deadline) next to a stale entry
+			if l.plain != nil {
+				if stale, perr := l.plain.GetDelegation(c); perr == nil && stale != nil {
+					return stale, fmt.Errorf("store: entry withdrawn: %w", chain.ErrLoaderIO)
+				}
+			}
+			if err == nil {
+				err = chain.ErrLoaderIO
+			}
+			return nil, err
 		}
 		return nil, nil
 	}
